@@ -6,7 +6,7 @@
  R3 co-mutation of RLBuilder.{len,run} and SparseBuilder.{len,next}
  R4 set_len only extends; TryFrom refuses a non-full builder before touching it; observers are plain getters
 """
-from facts import Undecided, loc, tstr, callee_name, callee_written, subterms, operand_place
+from facts import Undecided, loc, tstr, callee_name, callee_written, subterms, operand_place, reads_of_stmt
 from guards import facts_at, edge_facts, try_sites, has_cmp, strip_casts
 from effects import mutation_sites, field_store_blocks, comutated, comutated_ip, must_store_fns
 from pat import m, Bind, ANY, Call, Bin, Const, Param, SelfField, core, self_path
@@ -100,6 +100,14 @@ def check_config(ctx, F, tag):
     sites = mutation_sites(b, 1, by_ref=True)
     ctx.ob("C16.R2.extend-only-set", ext + tag, loc(b.raw["span"]), sites and all(k == "call" and d == SB + "::set" for _, k, d, _ in sites), "who-is-called",
            "builder mutations in extend: %s" % [(k, d) for _, k, d, _ in sites])
+    # every item of the argument reaches set(): the loop runs over the argument itself, not over a shortened / filtered view of it
+    # (an item that is dropped silently is a step that was neither refused nor reflected in the builder)
+    SHORTENING = ("take", "take_while", "skip", "skip_while", "filter", "filter_map", "step_by", "zip", "map_while", "fuse", "scan", "peekable")
+    into = [t for _, t in b.calls() if callee_name(t).endswith("IntoIterator>::into_iter") or callee_written(t) == "std::iter::IntoIterator::into_iter"]
+    adapted = sorted({callee_name(t).split("::")[-1] for _, t in b.calls() if callee_name(t).startswith("std::iter::Iterator::") and callee_name(t).split("::")[-1] in SHORTENING})
+    direct = any(core(b.term_of_operand(t["args"][0]))[:2] == ("param", 1) for t in into)
+    ctx.ob("C16.R2.extend-feeds-every-item", ext + tag, loc(b.raw["span"]), direct and not adapted, "who-is-called",
+           "extend iterates its argument directly: %s; shortening / filtering adaptors applied: %s" % (direct, adapted))
 
     # unchecked mutators: unsafe, and their safe callers are guarded
     unchecked = {SB + "::set_unchecked": None, RB + "::set_bit_unchecked": None, RB + "::set_run_unchecked": None}
@@ -149,6 +157,7 @@ def check_config(ctx, F, tag):
 
     # ---------------- R3 co-mutation
     check_comutation(ctx, F, tag)
+    check_noop_and_flush(ctx, F, tag)
 
     # ---------------- R4 set_len only extends; observers are getters
     b = F.body(RB + "::set_len")
@@ -164,6 +173,40 @@ def check_config(ctx, F, tag):
     for g, p in getters.items():
         b = F.body(g)
         ctx.ob("C16.R4.observer-is-getter", g + tag, loc(b.raw["span"]), m(p, b.term_of_local(0)), "term-shape", "%s() = %s" % (g.split("::")[-1], tstr(b.term_of_local(0))), nontrivial=False)
+
+
+def check_noop_and_flush(ctx, F, tag, prefix="C16.R5"):
+    """(a) `set_run_unchecked(start, 0)` is documented as doing nothing (try_set forwards zero-length runs to it): every mutation
+    of the builder in it is behind the `len > 0` test, so a zero-length run cannot even flush the pending run (which would split a
+    maximal run in two).  (b) Converting the builder reads nothing of it before the pending run was flushed."""
+    b = F.body(RB + "::set_run_unchecked")
+    sites = mutation_sites(b, 1, by_ref=True)
+    lenp = ("param", 2, b.local_name(3))
+    from guards import fact_nonzero
+    bad = [(k, d, loc(sp)) for bi, k, d, sp in sites if not fact_nonzero(facts_at(b, bi), lenp)]
+    ctx.ob(prefix + ".zero-length-run-is-a-no-op", b.name + tag, loc(b.raw["span"]), bool(sites) and not bad, "per-path-effects+guard",
+           "%d builder mutations in set_run_unchecked; not behind `len > 0`: %s" % (len(sites), bad))
+    fb = F.body("<rl_vector::RLVector as std::convert::From<rl_vector::RLBuilder>>::from")
+    fl = [bi for bi, t in fb.calls() if callee_name(t) == RB + "::flush"]
+    if len(fl) != 1:
+        raise Undecided("anchor lost: From<RLBuilder> calls flush %d times" % len(fl))
+    # the builder value: the local flush borrows
+    from facts import resolve_ref_local
+    root = resolve_ref_local(fb, [t for bi, t in fb.calls() if bi == fl[0]][0]["args"][0])
+    early = []
+    for bi, si, st in fb.stmts():
+        if st["s"] == "assign" and bi != fl[0] and not fb.dominates(fl[0], bi):
+            for x in reads_of_stmt(st):
+                if x == root and not (st["rv"]["r"] in ("ref",) and st["rv"].get("mut")):
+                    if st["rv"]["r"] == "use" and not st["lhs"]["p"] and st["lhs"]["l"] == root:
+                        continue
+                    early.append(loc(st["sp"]))
+    for bi, t in fb.calls():
+        if bi != fl[0] and not fb.dominates(fl[0], bi) and root is not None:
+            if any(resolve_ref_local(fb, a) == root for a in t["args"]):
+                early.append(loc(t["sp"]))
+    ctx.ob(prefix + ".conversion-flushes-first", fb.name + tag, loc(fb.raw["span"]), root is not None and not early, "must-precede",
+           "reads of the builder that are not dominated by builder.flush(): %s" % early)
 
 
 def check_comutation(ctx, F, tag, prefix="C16.R3"):
